@@ -118,6 +118,7 @@ def rules_for(pid):
             ("O-slot-purity", lambda c: RO.o_slot_purity(c.P, c.E), 3),
             ("WIRE-subscribe", lambda c: RX.wire_rule(c.P, c.E, c.H, lambda m: m == "observable"), 1),
             ("F-clear-total", lambda c: RO.f_clear_total(c.P, c.E), 1),
+            ("F-direct-call", lambda c: RO.f_direct_call(c.P, c.E), 3),
         ],
         "C02": [
             ("H-complete", lambda c: RH.h_complete(c.P, c.E, c.H, scope_c02), 14),
@@ -153,6 +154,7 @@ def rules_for(pid):
             ("COMPLETE-KIND", lambda c: ROPS.complete_kind_rule(c.P, c.E, c.H), 8),
             ("GATE-ORDER", lambda c: ROPS.gate_order_rule(c.P, c.E, c.H), 4),
             ("WIRE", lambda c: RX.wire_rule(c.P, c.E, c.H, lambda m: m in COMBINATORS), 20),
+            ("OPSEM-combine", lambda c: _only(ROPS.opsem_rule(c.P, c.E, c.H), ("operators::sequence_equal::SequenceEqual", "operators::combine_latest::CombineLatest")), 2),
         ],
         "C04": [
             ("H-error", lambda c: RH.h_error(c.P, c.E, c.H), 26),
@@ -216,6 +218,8 @@ def rules_for(pid):
             ("D-compose2-start_with", lambda c: _only(ROPS.compose_rule(c.P, c.E, c.H), ("operators::start_with::StartWith",)), 1),
             # amb's losers are cut when they next show themselves
             ("AMB", lambda c: ROPS.amb_rule(c.P, c.E, c.H), 1),
+            # aborting an upstream that is just delivering its own terminal (retry / resume-next inside the error callback) still runs its teardown
+            ("O-unsub-order", lambda c: RO.o_unsub_order(c.P, c.E), 4),
         ],
         "C07": [
             ("L1", lambda c: RL.l1_reentrancy(c.P, c.E, c.H), 19),
@@ -230,6 +234,7 @@ def rules_for(pid):
             ("COUNT-take", lambda c: _only(RCNT.count_rule(c.P, c.E, c.H), ("operators::take::Take",)), 1),
             # the to_vec future: a terminal that lands between poll's test and its waker store must still wake the task; lock order of its cells
             ("W", lambda c: RW.w_rules(c.P, c.E), 4),
+            ("H-register-first", lambda c: RH.h_register_first(c.P, c.E, c.H), 9),
         ],
         "C08": [
             ("Q", lambda c: RQ.q_rules(c.P, c.E), 10),
@@ -252,6 +257,7 @@ def rules_for(pid):
             ("D-compose2-start_with", lambda c: _only(ROPS.compose_rule(c.P, c.E, c.H), ("operators::start_with::StartWith",)), 1),
             # a source wired up after its downstream has ended is never released
             ("H-register-first", lambda c: RH.h_register_first(c.P, c.E, c.H), 9),
+            ("T1", lambda c: RS.t1_abort_wired(c.P, c.E), 3),
         ],
         "C18": [
             ("W", lambda c: RW.w_rules(c.P, c.E), 4),
@@ -277,6 +283,8 @@ def rules_for(pid):
             ("S-wiring-relay", lambda c: _only(RO.s_wiring(c.P, c.E), ("internals::stream_controller::StreamController::new_observer",),
                                                contains=("relay", "registered observer")), 3),
             ("WIRE", lambda c: RX.wire_rule(c.P, c.E, c.H, lambda m: m in SCHED_OPS), 4),
+            ("H-error", lambda c: RH.h_error(c.P, c.E, c.H, scope_c09), 2),
+            ("T2", lambda c: RS.t2_one_scheduler(c.P, c.E), 5),
         ],
         "C10": [
             ("J", lambda c: RJ.j_rules(c.P, c.E), 8),
@@ -303,6 +311,8 @@ def rules_for(pid):
             ("H-complete", lambda c: RH.h_complete(c.P, c.E, c.H, scope_c11), 5),
             ("ARITY", lambda c: RAR.arity_rule(c.P, c.E, c.H), 3),
             ("COMPLETE-KIND", lambda c: ROPS.complete_kind_rule(c.P, c.E, c.H), 8),
+            # observe_on behind a combinator fed from several threads: its scheduler exists before the first event
+            ("T2", lambda c: RS.t2_one_scheduler(c.P, c.E), 5),
         ],
         "C12": [
             ("J", lambda c: _only(RJ.j_rules(c.P, c.E), ("J1", "J2", "J3", "J6", "J7", "J10")), 5),
@@ -326,6 +336,7 @@ def rules_for(pid):
             ("WIRE", lambda c: RX.wire_rule(c.P, c.E, c.H, lambda m: m in ("publish", "ref_count", "replay")), 6),
             # the registry is emptied at a terminal: a finished subscriber that never unsubscribes must not keep the count above zero
             ("J-terminal", lambda c: _only(RJ.j_rules(c.P, c.E), ("J3", "J4")), 2),
+            ("SUBJ", lambda c: ROPS.subjects_rule(c.P, c.E, c.H), 5),
         ],
         "C15": [
             ("T1", lambda c: RS.t1_abort_wired(c.P, c.E), 3),
@@ -342,6 +353,7 @@ def rules_for(pid):
             ("L1-tasks", lambda c: _l1_tasks(RL.l1_reentrancy(c.P, c.E, c.H)), 1),
             # disconnect must find the connection: connect stores the handle under the guard it tested under
             ("P-connect", lambda c: _only(RJ.p_rules(c.P, c.E), ("P2", "P3", "P6")), 2),
+            ("H-register-first", lambda c: RH.h_register_first(c.P, c.E, c.H), 9),
         ],
         "C19": [
             ("A19b", lambda c: RJ.a19b(c.P, c.E), 3),
@@ -357,6 +369,7 @@ def rules_for(pid):
             ("O-slot-purity", lambda c: RO.o_slot_purity(c.P, c.E), 3),
             ("WIRE-subscribe", lambda c: RX.wire_rule(c.P, c.E, c.H, lambda m: m == "observable"), 1),
             ("F-clear-total", lambda c: RO.f_clear_total(c.P, c.E), 1),
+            ("F-direct-call", lambda c: RO.f_direct_call(c.P, c.E), 3),
         ],
         "C14": [
             ("K-fresh-state", lambda c: RK.k_fresh_state(c.P, c.E), 28),
@@ -366,7 +379,7 @@ def rules_for(pid):
             ("R1", lambda c: RH.r1_retry_drops_first(c.P, c.E, c.H), 3),
             # resubscription from inside a hot source's terminal notification (retry, on_error_resume_next, concat of the same
             # subject): the registry is emptied BEFORE the observers are notified, so what registers meanwhile survives
-            ("J4", lambda c: _only(RJ.j_rules(c.P, c.E), ("J4",)), 2),
+            ("J1-J4", lambda c: _only(RJ.j_rules(c.P, c.E), ("J1", "J4")), 4),
             ("K-slot-fresh", lambda c: RK.k_slot_fresh(c.P, c.E), 4),
         ],
     }
